@@ -5,6 +5,7 @@ import (
 	"fmt"
 
 	"github.com/robfig/soy/ast"
+	"github.com/robfig/soy/soymsg"
 )
 
 // Validate checks if the given message is representable in a PO file.
@@ -13,7 +14,11 @@ import (
 // Rules:
 //  - If a message contains a plural, it must be the sole child.
 //  - A plural contains exactly {case 1} and {default} cases.
+//  - The msgid (and msgid_plural) is read back as the message: every child is
+//    text or a placeholder, every placeholder name is recognised by
+//    soymsg.Parts, and no text looks like a placeholder.
 func Validate(n *ast.MsgNode) error {
+	var bodies = []ast.ParentNode{n.Body}
 	for i, child := range n.Body.Children() {
 		if n, ok := child.(*ast.MsgPluralNode); ok {
 			if i != 0 {
@@ -22,7 +27,43 @@ func Validate(n *ast.MsgNode) error {
 			if len(n.Cases) != 1 || n.Cases[0].Value != 1 {
 				return fmt.Errorf("PO requires two plural cases [1, default]. found %v", n.Cases)
 			}
+			bodies = []ast.ParentNode{n.Cases[0].Body, n.Default}
 		}
+	}
+	for _, body := range bodies {
+		if err := readsBack(body); err != nil {
+			return err
+		}
+	}
+	return nil
+}
+
+// readsBack checks that soymsg.Parts splits the string written for the given
+// message body into the body's own sequence of text and placeholders.
+func readsBack(body ast.ParentNode) error {
+	var buf bytes.Buffer
+	var names []string
+	for _, child := range body.Children() {
+		switch child := child.(type) {
+		case *ast.RawTextNode:
+		case *ast.MsgPlaceholderNode:
+			names = append(names, child.Name)
+		default:
+			return fmt.Errorf("%T can not be written to a PO file: %v", child, child)
+		}
+		writeph(&buf, child)
+	}
+	var i = 0
+	for _, part := range soymsg.Parts(buf.String()) {
+		if part, ok := part.(soymsg.PlaceholderPart); ok {
+			if i == len(names) || names[i] != part.Name {
+				return fmt.Errorf("the text {%s} in %q would be read back as a placeholder", part.Name, buf.String())
+			}
+			i++
+		}
+	}
+	if i < len(names) {
+		return fmt.Errorf("placeholder name %q in %q is not read back from a PO file", names[i], buf.String())
 	}
 	return nil
 }
